@@ -9,6 +9,9 @@ R02.2 backing laws       : the one order-sensitive consumer — the left-to-righ
       conflict payloads are ignored by equality.
 R02.3 rule isolation     : inference rules only add judgements derived from their own value and read no other evidence; lifting
       passes do not read the state (= R11.2).
+R02.4 nothing outlives a run : TypeChecker::run replaces its per-run state as a whole; a write (MIR assignment to / mutable borrow of
+      a place under `*self`, or an interior-mutability writer) to any other engine-owned type - configuration, passes, rules and
+      what they own - in a function on the call graph of run needs a reviewed row in tables/persistent_state.tsv.
 """
 from .. import facts as F
 from .. import tables
